@@ -460,11 +460,13 @@ func (fr *Frame) oblige(kind, detail, cond string, clause string) {
 		// false (a guard that no longer binds) is reported, not assumed.
 		return
 	}
-	x.em.Assert(sImp(fr.curReach, cond))
+	x.em.Assert(sImp(fr.curReach, strings.ReplaceAll(cond, "(hinte ", "(hintf ")))
 }
 
+// (witness instances of existential quantifiers, "(hinte ...)", help where the clause is a goal;
+// where it is assumed they are redundant disjuncts and are dropped)
 func (fr *Frame) assume(cond string) {
-	fr.x.em.Assert(sImp(fr.curReach, cond))
+	fr.x.em.Assert(sImp(fr.curReach, strings.ReplaceAll(cond, "(hinte ", "(hintf ")))
 }
 
 // ---------------------------------------------------------------------------
